@@ -41,7 +41,10 @@ CLAIMED = {
         "well-formed quoted text (doubled or backslash-escaped delimiters) is exactly one Quoted token "
         "(C16_quoted_is_one_token) and unquote inverts it. Model (coq/Model/Token.v) hand-written from src/token.rs; "
         "char::is_alphabetic table regenerated from the toolchain each run; tied by byte-exact differential run and an "
-        "in-process exhaustive enumeration of the losslessness oracle on the implementation.",
+        "in-process exhaustive enumeration of the losslessness oracle on the implementation; a quote-focused exhaustive "
+        "stream (runs of backslashes before delimiters) and piecewise templates whose expected token list is known by "
+        "construction (one token per piece: the language of the Coq theorem C11_tokenize_pieces) check the 'quoted text "
+        "is one token' half on the implementation's output.",
    note="Trusted: Coq kernel; extraction and driver; Rust Vec<char>/String semantics modelled as lists of scalar values; "
         "harness and generators. Print Assumptions: closed under the global context for all six theorems.",
    technique="Coq proof (induction with fuel bound) + differential correspondence model/implementation", ref="§6 C16"),
